@@ -5,7 +5,7 @@
                 1 = model and implementation differ, property still holds on the observation
                 2 = they differ and the property fails on the implementation's observation
                 3 = they agree and the property fails (model mirrors a defect) *)
-From Verif Require Import Lib.Bytes C15.Model.
+From Verif Require Export Lib.Bytes C15.Model C15.PointModel.
 From VerifGen Require Import Consts.
 Open Scope N_scope.
 
@@ -28,25 +28,100 @@ Fixpoint is_prefix (a b : list N) : bool :=
   | _ :: _, [] => false
   end.
 
+Definition bytes_eqb : bytes -> bytes -> bool := list_eqb N.eqb.
+
+Definition auxv_eqb (a b : auxv) : bool :=
+  match a, b with
+  | AFloat x, AFloat y | AInteger x, AInteger y | AUnsigned x, AUnsigned y => N.eqb x y
+  | AString x, AString y => bytes_eqb x y
+  | ABoolean x, ABoolean y => Bool.eqb x y
+  | AFloatNil, AFloatNil | AIntegerNil, AIntegerNil | AUnsignedNil, AUnsignedNil
+  | AStringNil, AStringNil | ABooleanNil, ABooleanNil | AUnknown, AUnknown | AOther, AOther => true
+  | _, _ => false
+  end.
+
+Definition pvalue_eqb (a b : pvalue) : bool :=
+  match a, b with
+  | VFloat x, VFloat y | VInteger x, VInteger y | VUnsigned x, VUnsigned y => N.eqb x y
+  | VString x, VString y => bytes_eqb x y
+  | VBoolean x, VBoolean y => Bool.eqb x y
+  | _, _ => false
+  end.
+
+Definition point_eqb (a b : point) : bool :=
+  bytes_eqb (p_name a) (p_name b) && bytes_eqb (p_tags a) (p_tags b) && N.eqb (p_time a) (p_time b) &&
+  Bool.eqb (p_nil a) (p_nil b) && list_eqb auxv_eqb (p_aux a) (p_aux b) && N.eqb (p_aggr a) (p_aggr b) &&
+  pvalue_eqb (p_value a) (p_value b).
+
+Definition kv_eqb (a b : bytes * bytes) : bool := bytes_eqb (fst a) (fst b) && bytes_eqb (snd a) (snd b).
+
+(* the Go map behind decodeTags, as the harness reports it: distinct keys (last value
+   wins) in sorted key order *)
+Fixpoint bytes_cmp (a b : bytes) : comparison :=
+  match a, b with
+  | [], [] => Eq
+  | [], _ => Lt
+  | _, [] => Gt
+  | x :: a', y :: b' => match N.compare x y with Eq => bytes_cmp a' b' | c => c end
+  end.
+
+Fixpoint kv_insert (k v : bytes) (l : list (bytes * bytes)) : list (bytes * bytes) :=
+  match l with
+  | [] => [(k, v)]
+  | (k', v') :: r => match bytes_cmp k k' with
+                     | Lt => (k, v) :: l
+                     | Eq => (k, v) :: r
+                     | Gt => (k', v') :: kv_insert k v r
+                     end
+  end.
+
+Definition canon_kvs (l : list (bytes * bytes)) : list (bytes * bytes) :=
+  fold_left (fun acc kv => kv_insert (fst kv) (snd kv) acc) l [].
+
 Inductive case :=
 (* ReadLV on stream s: impl outcome class (0 ok, 1 error, 2 panic), payload length when ok,
    number of bytes left unread, and whether the call allocated >= MaxMessageSize bytes *)
 | CLv (s : bytes) (cls : N) (payload : bytes) (unread : N) (alloc_ge_max : bool)
 (* WriteTLV(typ, buf) bytes produced by impl, and whether impl's ReadTLV gave (typ, buf) back *)
 | CWr (typ : N) (buf : bytes) (impl_bytes : bytes) (impl_roundtrip : bool)
-(* handleConn fed stream s: reply frame types seen, trailing garbage after the last
-   parsable reply frame, panicked *)
-| CServe (s : bytes) (reply_types : list N) (panicked : bool).
+(* handleConn fed stream s (random bytes, or well-formed request envelopes with invalid /
+   edge contents): reply frame types seen; panicked = handleConn or a request handler
+   panicked (also when the listener recovered it) *)
+| CServe (s : bytes) (reply_types : list N) (panicked : bool)
+(* one point of type t (tags kvs, p_tags p = the real Tags.ID()): frame written by the real
+   <T>PointEncoder; real Decode<T>Point on it: class 0 ok / 1 error / 2 panic / 3 = the
+   encoder failed; decoded tag map and point *)
+| CPoint (t : ptype) (kvs : list (bytes * bytes)) (p : point) (real_bytes : bytes)
+         (cls : N) (dkvs : list (bytes * bytes)) (d : point)
+(* points through the real IteratorEncoder (stats sn/pn, optional trace frame): encoder
+   class, bytes written; real NewReaderIterator(...).Next until nil/error: class (0 clean
+   end, 1 error, 2 panic) and the points returned *)
+| CStream (t : ptype) (ps : list point) (sn pn : N) (trace : bytes) (enc_cls : N) (real_bytes : bytes)
+          (cls : N) (dps : list point)
+(* arbitrary bytes through the real NewReaderIterator *)
+| CRaw (t : ptype) (s : bytes) (cls : N) (dps : list point)
+(* Unmarshal(Marshal(v)) = v for a request/response value of rpc.go (differential only:
+   there is no model of these messages) *)
+| CRpc (name : bytes) (ok : bool)
+(* influxql.DataType codes of the working tree: Unknown Float Integer String Boolean Unsigned *)
+| CPtConsts (vals : list N).
 
 Definition model_reply_types (evs : list event) : list N :=
-  flat_map (fun e => match e with EReply t _ => [t] | ECrash => [] end) evs.
+  flat_map (fun e => match e with EReply t _ => [t] | _ => [] end) evs.
 
 Definition last_is_ret (s : bytes) (evs : list event) : bool :=
   (* replies of DProcRet arms may be followed by a stream; allow extra frames then *)
   match rev evs with
   | EReply t _ :: _ => match lookup_dispatch (t - 1) with Some DProcRet => true | Some DNoLVRet => true | _ => false end
+  | ERaw :: _ => true
   | _ => false
   end.
+
+Definition end_class (e : stream_end) : N := match e with SEof => 0 | SErr => 1 | SCrash => 2 end.
+
+(* the harness decodes with context.Background(): decodeIteratorTrace accepts any bytes *)
+Definition model_read (t : ptype) (s : bytes) : list point * stream_end :=
+  read_frames_of (fun _ => true) t s.
 
 Definition check_case (c : case) : N :=
   match c with
@@ -67,4 +142,28 @@ Definition check_case (c : case) : N :=
       let agree := negb panicked && is_prefix mt rts &&
                    (Nat.eqb (length mt) (length rts) || last_is_ret s evs) in
       code agree (negb panicked)
+  | CPoint t kvs p rb cls dkvs d =>
+      let agree_enc := bytes_eqb (encode_tags kvs) (p_tags p) &&
+                       bytes_eqb (frame (encode_point_body p)) rb in
+      let '(mps, e) := model_read t rb in
+      let agree_dec :=
+        match mps with
+        | m :: _ => N.eqb cls 0 && point_eqb m d &&
+                    list_eqb kv_eqb (canon_kvs (decode_tags (p_tags m))) dkvs
+        | [] => N.eqb cls (match e with SCrash => 2 | _ => 1 end)
+        end in
+      let spec_ok := N.eqb cls 0 && point_eqb d p && list_eqb kv_eqb dkvs kvs in
+      code (agree_enc && agree_dec) spec_ok
+  | CStream t ps sn pn trace enc_cls rb cls dps =>
+      let agree_enc := N.eqb enc_cls 0 && bytes_eqb (encode_items (encode_iterator ps sn pn trace)) rb in
+      let '(mps, e) := model_read t rb in
+      let agree_dec := N.eqb cls (end_class e) && list_eqb point_eqb mps dps in
+      let spec_ok := N.eqb enc_cls 0 && N.eqb cls 0 && list_eqb point_eqb dps ps in
+      code (agree_enc && agree_dec) spec_ok
+  | CRaw t s cls dps =>
+      let '(mps, e) := model_read t s in
+      code (N.eqb cls (end_class e) && list_eqb point_eqb mps dps) (negb (N.eqb cls 2))
+  | CRpc _ ok => code true ok
+  | CPtConsts vals =>
+      code (list_eqb N.eqb vals [dt_unknown; dt_float; dt_integer; dt_string; dt_boolean; dt_unsigned]) true
   end.
